@@ -163,6 +163,14 @@ InitResp(n, forceErr) ==
           /\ UNCHANGED <<phase, cache>>
   /\ UNCHANGED <<cfg, svc, handles, closed, poll, lk, call, now>>
 
+\* the caller's context has ended and nothing is in flight (after a pause, say): construction may give up at once instead of
+\* starting another round of requests that are doomed anyway
+InitGiveUp ==
+  /\ phase = "init" /\ InitCtxDone /\ ReqsBy("init") = {}
+  /\ InitFail
+  /\ out' = Event("ret", [call |-> "newstore", res |-> "err", flushed |-> FALSE])
+  /\ UNCHANGED <<cfg, svc, handles, closed, poll, lk, rq, call, now>>
+
 \* a request of a construction that has already given up comes back: nothing happens
 InitStray(n) ==
   /\ phase = "failed" /\ rq["init"][n] # Nil
@@ -278,17 +286,21 @@ ApplyLate(mm, ld) == [n \in Names |-> IF ld /\ n \in LateStale THEN Nil ELSE App
 \* xf: the cache is rewritten although the round installed nothing (allowed, see ExtraFlush); a failing cache write is then
 \* reported just as it is after an installing round
 \* (a round in which a request has failed is lost anyway: it may end without asking for the remaining secrets)
-PollFinishR(xf, ld) ==
+PollFinishR(xf, ld, fd) ==
   /\ poll # Nil /\ (poll.todo = {} \/ poll.failed) /\ NoPollReq
   /\ (ld => ~poll.failed /\ LateStale # {})
+  /\ (fd => poll.failed /\ \E n \in Names : poll.upd[n] = Del /\ n \notin handles)
   /\ LET mn == ApplyLate(m, ld)
          must == mn # m                        \* something was installed or dropped: the cache has to follow (C13)
      IN
      /\ (xf => ~poll.failed /\ ~must /\ Flushes)
      /\ IF poll.failed
-        THEN /\ UNCHANGED <<m, cache>>
+        THEN \* nothing fetched is installed; the secrets found stale may still go (fd), and the cache follows them
+             LET md == [n \in Names |-> IF fd /\ poll.upd[n] = Del /\ n \notin handles THEN Nil ELSE m[n]] IN
+             /\ m' = md
+             /\ cache' = IF md # m THEN Flush(md) ELSE cache
              /\ hist' = [hist EXCEPT !.pollErrs = @ + 1]                             \* metric: polls that failed
-             /\ out' = Event("pollend", [res |-> "err", flushed |-> FALSE, waiters |-> poll.waiters])
+             /\ out' = Event("pollend", [res |-> "err", flushed |-> (md # m /\ Flushes), waiters |-> poll.waiters])
         ELSE /\ m' = mn
              /\ cache' = IF must \/ xf THEN Flush(mn) ELSE cache
              /\ hist' = [hist EXCEPT !.inst = [n \in Names |->
@@ -298,7 +310,7 @@ PollFinishR(xf, ld) ==
   /\ poll' = Nil
   /\ call' = [c \in Callers |-> IF c \in poll.waiters THEN Nil ELSE call[c]]
   /\ UNCHANGED <<cfg, svc, handles, phase, closed, ini, lk, rq, now>>
-PollFinish == \E xf, ld \in BOOLEAN : PollFinishR(xf, ld)
+PollFinish == \E xf, ld, fd \in BOOLEAN : PollFinishR(xf, ld, fd)
 
 \* C13 says when the cache MUST be rewritten (after the initial fetch, a lookup, a poll that installed something, at
 \* shutdown); an implementation may also rewrite it at other moments -- always as one complete document of its current state
@@ -373,6 +385,16 @@ FlightSend(n) ==
   /\ out' = Event("req", [name |-> n, kind |-> "get", old |-> 0])
   /\ UNCHANGED <<cfg, svc, m, handles, cache, phase, closed, ini, poll, call, now, hist>>
 
+\* a flight for a name that has been installed meanwhile need not ask the service at all
+FlightSkip(n) ==
+  /\ lk[n] # Nil /\ ~lk[n].sent /\ IsRec(m[n])
+  /\ lk' = [lk EXCEPT ![n] = Nil]
+  /\ handles' = handles \cup {n}
+  /\ call' = [k \in Callers |-> IF k \in lk[n].members THEN Nil ELSE call[k]]
+  /\ out' = Event("lookupend", [name |-> n, res |-> "val", ver |-> m[n].ver, returned |-> lk[n].members, retry |-> {}, force |-> FALSE,
+                                installed |-> FALSE])
+  /\ UNCHANGED <<cfg, svc, m, cache, phase, closed, ini, poll, rq, now, hist>>
+
 FlightCtxDone(n) == lk[n].dead
 
 \* the request of a lookup flight completes: value (install, flush, every member still waiting gets a
@@ -410,8 +432,10 @@ LookupResp(n, forceErr) ==
 
 \* a caller whose own context has ended stops waiting at once, wherever it is; a flight it leads
 \* goes on without it until its request notices the dead context
+\* (the pinned code looks at a caller's context only once it waits for a flight; an implementation may as well turn away a
+\*  caller whose context is already over before anything is started, or release blocked callers when the store is closed)
 LookupGiveUp(k) ==
-  /\ call[k] # Nil /\ call[k].kind = "lookup" /\ ~CtxAlive(k) /\ call[k].tries > 0
+  /\ call[k] # Nil /\ call[k].kind = "lookup" /\ (~CtxAlive(k) \/ closed # "open")
   /\ call' = [call EXCEPT ![k] = Nil]
   /\ lk' = [n \in Names |-> IF lk[n] # Nil THEN [lk[n] EXCEPT !.members = @ \ {k}] ELSE Nil]
   /\ out' = Event("ret", [call |-> "lookup", caller |-> k, res |-> "ctx"])
@@ -539,12 +563,13 @@ Bounded == \A k \in {j \in Callers : call[j] # Nil} :
 \* leader's context, every member still waiting stays in the call (and will re-enter)
 NotCollateral == (out.ev = "lookupend" /\ out.res = "ctx") => \A k \in out.retry : call[k] # Nil
 
-\* C19: a secret leaves the store only at the end of a successful poll, and only if it is undeclared,
+\* C19: a secret leaves the store only at the end of a poll, and only if it is undeclared,
 \* an expiry age is set, it had not been read for longer than that (at the poll's snapshot or at its end), and no handle exists
 DropRule ==
   \A n \in Names :
     (IsRec(m[n]) /\ ~IsRec(m'[n]) /\ phase = "running" /\ phase' = "running") =>
-       /\ poll # Nil /\ poll' = Nil /\ ~poll.failed
+       /\ poll # Nil /\ poll' = Nil
+       /\ (poll.failed => poll.upd[n] = Del)             \* a failed poll installs nothing; it may still drop what it found stale
        /\ ~m[n].declared /\ cfg.expiry > 0 /\ n \notin handles
        /\ ((poll.upd[n] = Del /\ poll.snap[n].expired) \/ Expired(n))        \* stale at the snapshot, or stale now
 NeverDropDeclared == phase = "running" => \A n \in cfg.declared : IsRec(m[n])
